@@ -2,5 +2,5 @@
 EXTENDS Config, TLC, Json, CSV, IOUtils
 Emit == Done => CSVWrite("%1$s", <<ToJson([testnet |-> testnetFlag, developer |-> developerFlag,
                                             peers |-> peersSrc, electrum |-> electrumSrc,
-                                            contracts |-> contractSrc, expected |-> resolved])>>, "cases.ndjson")
+                                            contracts |-> contractSrc, netInFile |-> netInFile, expected |-> resolved])>>, "cases.ndjson")
 =============================================================================
